@@ -336,6 +336,20 @@ fn apostrophe_case(idx: u64, rec: &mut Rec) {
     let start = APOS_BASES[(idx % 3) as usize];
     let loc = APOS_LOCS[((idx / 3) % 8) as usize];
     let status = [301u16, 302, 307][((idx / 24) % 3) as usize];
+    verbatim_case(start, loc, status, "apostrophe", rec)
+}
+
+/// "With any fragment dropped": however long the fragment is, the target without it is what counts - a Location of
+/// 70 KB that is nearly all fragment resolves to a short URI.
+fn long_fragment_case(idx: u64, rec: &mut Rec) {
+    let start = APOS_BASES[(idx % 3) as usize];
+    let stem = ["http://b.test/next#", "../other?k=v#", "#", "/p?q=1#"][((idx / 3) % 4) as usize];
+    let n = [65_500usize, 65_536, 70_000][((idx / 12) % 3) as usize];
+    let loc = format!("{}{}", stem, "f".repeat(n));
+    verbatim_case(start, &loc, 302, "long-fragment", rec)
+}
+
+fn verbatim_case(start: &str, loc: &str, status: u16, what: &str, rec: &mut Rec) {
     let cfg = ReqCfg::new("GET", start);
     let want = UriRef { fragment: None, ..resolve(&split_uri(start), &split_uri(loc)) };
     let want_target = path_and_query(&want);
@@ -360,12 +374,14 @@ fn apostrophe_case(idx: u64, rec: &mut Rec) {
         }
     });
     rec.call();
-    rec.ev(|| format!("base {} Location {:?} ({}) -> {:?}; RFC 3986: {}", start, loc, status, res, normalise(&want)));
+    let loc_short = crate::json::esc_short(loc.as_bytes(), 60);
+    rec.ev(|| format!("base {} Location {:?} ({} bytes, {}) -> {:?}; RFC 3986: {}", start, loc_short, loc.len(), status, res.as_ref().map(|r| r.as_ref().map_err(|e| crate::json::esc_short(e.as_bytes(), 80))), normalise(&want)));
+    let loc = loc_short.as_str();
     match res {
         Err((l, m)) => rec.fail(&format!("C14/{}", panic_sig(&l, &m)), format!("Location {:?}: panic {} at {}", loc, m, l)),
-        Ok(Err(e)) => rec.fail("C14/valid-location-refused", format!("base {} Location {:?}: {}", start, loc, e)),
+        Ok(Err(e)) => rec.fail("C14/valid-location-refused", format!("base {} Location {:?}: {}", start, loc, crate::json::esc_short(e.as_bytes(), 80))),
         Ok(Ok((uri, target))) => {
-            rec.cov(if want_target.contains('\'') { "apostrophe/in-target" } else { "apostrophe/control" });
+            rec.cov(&format!("{}/{}", what, if want_target.contains('\'') { "in-target" } else { "control" }));
             let uri_target = path_and_query(&split_uri(&uri));
             for (what, got) in [("request line", &target), ("Flow::uri()", &uri_target)] {
                 if *got != want_target {
@@ -591,6 +607,7 @@ impl Property for P {
             Workload::new("chains", tier.pick(20_000, 8_000_000), false, "random clean chains, URI compared at every hop"),
             Workload::new("wire", tier.pick(5_000, 2_000_000), false, "request line and Host of every intermediate hop"),
             Workload::new("unresolvable", 6 * 5 * 8, true, "6 methods x 5 statuses x 8 textual Locations without a resolvable host: an error in every cell"),
+            Workload::new("long-fragment", 36, true, "3 bases x 4 references x fragments of 65500 / 65536 / 70000 bytes: the fragment is dropped, the target is short"),
             Workload::new("apostrophe", 72, true, "3 bases x 8 Locations with an apostrophe in query or path (and controls) x 3 statuses: path and query must arrive as they stand"),
             Workload::new("hostile", ((HOSTILE.len() + LONG_NON_TEXTUAL) * 6) as u64, true, "hostile Locations (61 hand-picked + 56 long non-textual ones around 256 bytes) x 3 bases x met on the first or on the second hop"),
             Workload::new("origin-form", 6 * 12 * 3 * 3, true, "requests in origin-form and authority-form (http:80, https:443, a.test:443) with the Host spelled out x 12 Locations x 3 methods x 3 statuses: no absolute base to resolve against"),
@@ -605,6 +622,7 @@ impl Property for P {
             "wire" => wire_case(&mut rng, rec),
             "hostile" => hostile_case(idx, rec),
             "apostrophe" => apostrophe_case(idx, rec),
+            "long-fragment" => long_fragment_case(idx, rec),
             "unresolvable" => unresolvable_case(idx, rec),
             "origin-form" => origin_form_case(idx, rec),
             "partial-two-locations" => partial_locations_case(idx, rec),
